@@ -10,5 +10,6 @@ CONSTANTS
   Cfg0 <- Cfg0C09a
   Cfgs <- AllCfgs
   Bud0 <- BudC09a
+  OwnEntryCheck = TRUE
 INVARIANTS TypeOK HeartbeatFresh
 PROPERTIES OwnEntryOnly StateEdges RefusedUntouched HeartbeatMonotone RegisteredOnce ActivationTokens ReadyImpliesActive KeepsIdentity ReRegistersFresh
